@@ -384,5 +384,6 @@ func retryMain(args []string) {
 			rep.Sample(map[string]string{"line": blines[0], "impl": bwant[0]})
 		}
 	}
+	retryClientScenarios(rep, o)
 	rep.Write(o.Report, drv)
 }
